@@ -186,6 +186,7 @@ class RepeatedNodeWrapper(MutableSequence[_M]):
     def __setitem__(self, index: int | slice, value: _M | Iterable[_M]) -> None:
         if isinstance(index, int):
             assert not isinstance(value, Iterable)
+            index = indexes.range_from_index(index, len(self._repeated.items)).start
             item = self._repeated.items[index]
             self._repeated.token_store.splice(value.detach(), item.first_token, item.last_token)
             value.reattach(self._repeated.token_store)
@@ -199,6 +200,7 @@ class RepeatedNodeWrapper(MutableSequence[_M]):
             self._repeated.token_store.get_prev(self._repeated.items[0].first_token)
             if self._repeated.items else None)
         if r.step == 1:
+            r = range(r.start, max(r.start, r.stop))
             self._del_tokens(r.start, r.stop)
             self._insert_tokens(
                 r.start, values, len(self._repeated.items) - len(r), separators_before_last)
@@ -217,7 +219,8 @@ class RepeatedNodeWrapper(MutableSequence[_M]):
             self._notify()
 
     def insert(self, index: int, value: _M) -> None:
-        index = min(index, len(self._repeated.items))
+        length = len(self._repeated.items)
+        index = max(0, index + length) if index < 0 else min(index, length)
         self._insert_tokens(index, [value])
         value.reattach(self._repeated.token_store)
         self._repeated.items.insert(index, value)
